@@ -618,7 +618,12 @@ func (e *Engine) mapOp(n *Node, op *Op) error {
 		}
 		for i := 0; i < total; i++ {
 			km := U64(1_000_000 + (op.P%1000)*100_000 + uint64(i))
-			if err := e.mapSet(n, km, &VD{K: "u", N: uint64(i)}, false); err != nil {
+			vd := &VD{K: "u", N: uint64(i)}
+			if n.Dig != nil && i%4 == 0 {
+				// with colliding digests: big values, so that small collision groups are pushed out to external slabs
+				vd = &VD{K: "s", Z: 2, D: i%7 - 3, N: uint64(i)}
+			}
+			if err := e.mapSet(n, km, vd, false); err != nil {
 				return err
 			}
 		}
